@@ -417,13 +417,22 @@ def opTarget : Op → Option (Nat × View)
 
 def prodNat (l : List Nat) : Nat := l.foldl (· * ·) 1
 
+/-- Hypothesis of `shape_of_mask`: every elementary mask on `(d, v)` has the view shape `sh`. -/
+def leavesShaped (c : Case) (d v : Nat) (sh : List Nat) : Bool :=
+  c.leaves.all fun lf => lf.2.all fun r =>
+    !(r.1 == d && r.2.1 == v) ||
+      (match r.2.2 with
+        | .ok m => m.shape == sh && m.bits.length == prodNat sh
+        | .error _ => true)
+
 /-- **The Spec verdict** on an observable output (the implementation's, or the model's own). -/
 def specOk (c : Case) (o : Output) : Bool :=
   let env := envOf c
   let (ss, sobs, shist) := specRun env {} c.ops [.leaf emptyContent]
   let fuel := o.nodes.size + 1
   -- (1) masks are the elementwise Boolean functions of the parts' masks; (2) no returned array was
-  -- altered afterwards; (3) shapes are the dataset's view shape
+  -- altered afterwards; (3) shapes are the dataset's view shape whenever the elementary masks'
+  -- shapes are (the form of `shape_of_mask`; leaf shapes themselves belong to C04)
   let okObs := o.obs.length == sobs.length && (o.obs.zip sobs).all (fun p => obsMatches p.1 p.2)
   let okEnd := o.obs.all (fun x => x.kind != "ok" || x.endSame)
   let okShape := (o.obs.zip c.ops).all fun p =>
@@ -431,7 +440,7 @@ def specOk (c : Case) (o : Output) : Bool :=
       match opTarget p.2 with
       | some (d, v) =>
         match expectedShape c d v with
-        | some sh => p.1.mask.shape == sh && p.1.mask.bits.length == prodNat sh
+        | some sh => !leavesShaped c d v.id sh || (p.1.mask.shape == sh && p.1.mask.bits.length == prodNat sh)
         | none => true
       | none => false
     else true
